@@ -100,6 +100,7 @@ type Path struct {
 	obligs      []*Oblig
 	keptUnknown int
 	inInit      bool
+	exactTables bool
 	unwindAssume bool
 	effectArgs  [][]*Term
 	effectFail  []*Term
